@@ -67,6 +67,22 @@ def replay(verdict, tier, seed):
             try:
                 den = float(c["den"])
                 s, src = build_population(ks, ns, dt, bf, den)
+                if ci % 4 == 1:
+                    # the population object has a past: it held other values and was asked for the weights of
+                    # the same move before its fields and temperature were set to the case's values (the
+                    # library itself assigns fields and temperatures on existing objects); what resample()
+                    # does depends on the *current* state only
+                    ks_o = [(k if k == 99 else -k) for k in ks][::-1]
+                    s, _ = build_population(ks_o, ns, dt, bt if bt != bf else bf, den)
+                    for q in (lambda: s.log_weights(bt / den), lambda: s.log_evidence_ratio(bt / den),
+                              lambda: s.unnormalized_log_weights(bt / den)):
+                        try:
+                            q()
+                        except Exception:
+                            pass
+                    fresh, src = build_population(ks, ns, dt, bf, den)
+                    s.x, s.log_likelihood, s.log_prior, s.log_q = fresh.x, fresh.log_likelihood, fresh.log_prior, fresh.log_q
+                    s.beta = fresh.beta
                 rng = ScriptedRNG([j - 1 for j in idx])
                 pass_size = size if (size != n or (ci % 3 == 0)) else None
                 out = s.resample(bt / den, n_samples=pass_size, rng=rng)
